@@ -373,30 +373,27 @@ func relevantAssumptions(assume []*Term, goal *Term, depth int) []*Term {
 	keys := map[*Term]bool{}
 	keyTerms(goal, keys)
 	kept := make([]bool, len(assume))
-	fkeys := make([]map[*Term]bool, len(assume))
+	fkeys := make([][]*Term, len(assume))
 	for i, f := range assume {
-		fkeys[i] = map[*Term]bool{}
-		keyTerms(f, fkeys[i])
+		fkeys[i] = cachedKeys(f)
 	}
 	for d := 0; d < depth; d++ {
-		add := map[*Term]bool{}
+		var add []*Term
 		for i := range assume {
 			if kept[i] {
 				continue
 			}
-			for k := range fkeys[i] {
+			for _, k := range fkeys[i] {
 				if keys[k] {
 					kept[i] = true
 					break
 				}
 			}
 			if kept[i] {
-				for k := range fkeys[i] {
-					add[k] = true
-				}
+				add = append(add, fkeys[i]...)
 			}
 		}
-		for k := range add {
+		for _, k := range add {
 			keys[k] = true
 		}
 	}
@@ -409,46 +406,68 @@ func relevantAssumptions(assume []*Term, goal *Term, depth int) []*Term {
 	return out
 }
 
-// solveWithRelevance races the full query against the query restricted to the assumptions that
-// share a term with the goal. unsat of either is a proof; sat/unknown count only for the full one.
+var keyCacheMu sync.Mutex
+var keyCache = map[*Term][]*Term{}
+
+func cachedKeys(f *Term) []*Term {
+	keyCacheMu.Lock()
+	if k, ok := keyCache[f]; ok {
+		keyCacheMu.Unlock()
+		return k
+	}
+	keyCacheMu.Unlock()
+	m := map[*Term]bool{}
+	keyTerms(f, m)
+	ks := make([]*Term, 0, len(m))
+	for k := range m {
+		ks = append(ks, k)
+	}
+	keyCacheMu.Lock()
+	keyCache[f] = ks
+	keyCacheMu.Unlock()
+	return ks
+}
+// solveWithRelevance runs the full query and, if that takes more than a moment, races it against
+// the query restricted to the assumptions that share a term with the goal. unsat of either is a
+// proof; sat/unknown count only for the full query.
 func solveWithRelevance(o *Obligation, to int) SolveResult {
 	if o.expect() != "unsat" || o.RawScript != "" || o.Goal == nil || len(o.Assume) < 24 {
 		return Solve(o.File, to, nil)
 	}
-	sub := relevantAssumptions(o.Assume, o.Goal, 1)
-	if len(sub) >= len(o.Assume) {
-		return Solve(o.File, to, nil)
-	}
-	sc := o.Bank.Script(sub, o.Goal, o.chunks, o.Prelude, o.Axioms)
-	f := strings.TrimSuffix(o.File, ".smt2") + ".rel1.smt2"
-	os.WriteFile(f, []byte(sc), 0o644)
 	type tagged struct {
 		r    SolveResult
 		full bool
 	}
 	ch := make(chan tagged, 2)
 	go func() { ch <- tagged{Solve(o.File, to, nil), true} }()
-	go func() { ch <- tagged{Solve(f, to, nil), false} }()
-	first := <-ch
-	if first.r.Status == "unsat" {
-		if !first.full {
-			first.r.Backend += "(rel1)"
-			first.r.Detail = fmt.Sprintf("proved from %d of %d assumptions; ", len(sub), len(o.Assume)) + first.r.Detail
-		}
-		go func() { <-ch }()
+	select {
+	case first := <-ch:
 		return first.r
+	case <-time.After(1200 * time.Millisecond):
 	}
-	if first.full && first.r.Status == "sat" {
+	sub := relevantAssumptions(o.Assume, o.Goal, 1)
+	if len(sub) >= len(o.Assume) {
+		return (<-ch).r
+	}
+	sc := o.Bank.Script(sub, o.Goal, o.chunks, o.Prelude, o.Axioms)
+	f := strings.TrimSuffix(o.File, ".smt2") + ".rel1.smt2"
+	os.WriteFile(f, []byte(sc), 0o644)
+	go func() { ch <- tagged{Solve(f, to, nil), false} }()
+	label := func(t tagged) SolveResult {
+		if !t.full {
+			t.r.Backend += "(rel1)"
+			t.r.Detail = fmt.Sprintf("proved from %d of %d assumptions; ", len(sub), len(o.Assume)) + t.r.Detail
+		}
+		return t.r
+	}
+	first := <-ch
+	if first.r.Status == "unsat" || (first.full && first.r.Status == "sat") {
 		go func() { <-ch }()
-		return first.r
+		return label(first)
 	}
 	second := <-ch
 	if second.r.Status == "unsat" {
-		if !second.full {
-			second.r.Backend += "(rel1)"
-			second.r.Detail = fmt.Sprintf("proved from %d of %d assumptions; ", len(sub), len(o.Assume)) + second.r.Detail
-		}
-		return second.r
+		return label(second)
 	}
 	if first.full {
 		return first.r
